@@ -124,7 +124,9 @@ add("ctor0", S("FOO<>"), [one("FOO<>"), one("FOO", "[", "]")], "full")
 # ---- holographic
 add("holo", H('["x"{U2227}REQ{U2192}{U00A7}T]'),
     [one("[", '"x"', AND, "REQ", ARROW, SEC, "T", "]"), one("[", '"x"', "&", "REQ", "->", "#", "T", "]"),
-     one("[", " ", '"x"', " ", AND, " ", "REQ", " ", ARROW, " ", SEC, "T", " ", "]")], "core")
+     one("[", " ", '"x"', " ", AND, " ", "REQ", " ", ARROW, " ", SEC, "T", " ", "]"),
+     [("first", ["["]), ("rel", ["  ", '"x"', "&", "REQ", "->", "#", "T"]), ("rel", ["]"])],
+     [("first", ["["]), ("rel", ["    ", '"x"', AND, "REQ", ARROW, SEC, "T"]), ("rel", ["  ", "]"])]], "core")
 add("holoenum", H('["a"{U2227}ENUM[a,b]]'), [one("[", '"a"', AND, "ENUM", "[", "a", ",", "b", "]", "]"), one("[", '"a"', "&", "ENUM", "[", "a", ",", "b", "]", "]")], "full")
 # ---- lists and inline maps
 add("l0", L(), [one("[", "]"), one("[", " ", "]")], "core")
